@@ -88,7 +88,8 @@ S["prdump"] = [("RunString", "PRINT\n -dump false\nEND\n")]
 S["precho"] = [("RunString", "PRINT\n -echo_input false\n -headings false\n -user_print false\nEND\n")]
 
 S["defs"] = [("RunString", "RATES\n myrate\n -start\n 10 SAVE 1e-6 * TIME\n -end\nCALCULATE_VALUES\n myval\n -start\n 10 SAVE 42\n -end\n"
-              "USER_PRINT\n 10 PUT(3.25, 1)\n 20 PUT(7.5, 2, 3)\n 30 PUT$(\"kept\", 4)\n 40 PRINT \"stored\", CALC_VALUE(\"myval\")\n"
+              "USER_PRINT\n 10 PRINT \"stored\", CALC_VALUE(\"myval\")\n"
+              "SELECTED_OUTPUT 1\n -reset false\nUSER_PUNCH 1\n -headings stored\n 10 PUT(3.25, 1)\n 20 PUT(7.5, 2, 3)\n 30 PUT$(\"kept\", 4)\n 40 PUNCH CALC_VALUE(\"myval\")\n"
               + SOL1 + "END\n")]
 
 S["redef"] = [("RunString", "SOLUTION_MASTER_SPECIES\n Xx Xx+ 0 Xx 50\nSOLUTION_SPECIES\n Xx+ = Xx+\n log_k 0\n Ca+2 + CO3-2 = CaCO3\n log_k 5.0\n"
